@@ -115,7 +115,7 @@ impl<'a, 'b> B<'a, 'b> {
         for _ in 0..n {
             let cid = self.fresh();
             let name = format!("m{cid}");
-            let kind = if self.space.exotic { self.c.weighted(&[6, 2, 2, 1, 1, 1, 1, 1, 1]) } else { 0 };
+            let kind = if self.space.exotic { self.c.weighted(&[6, 2, 2, 1, 1, 1, 1, 1, 1, 1]) } else { 0 };
             match kind {
                 1 => {
                     // #[path] on a file-level declaration: relative to the directory of this file
@@ -153,6 +153,16 @@ impl<'a, 'b> B<'a, 'b> {
                     self.child_file(&d.clone(), &name, depth - 1);
                     self.next_decl = "cfg_if".into();
                     self.child_file(&d.clone(), &other, depth - 1);
+                }
+                9 => {
+                    // #[path] on an inline module: names a directory, relative to the directory
+                    // of the declaring file (whatever the style of that file)
+                    let pd = format!("pd{cid}");
+                    content.push_str(&format!("#[path = \"{pd}\"]\nmod pi{cid} {{\n    pub fn  in_path_inline_{cid} ( ) {{ }}\n    mod {name};\n}}\n"));
+                    let base = join(&dir_of(&path), &pd);
+                    self.label("path-on-inline-module");
+                    self.next_decl = "path".into();
+                    self.child_file(&base, &name, depth - 1);
                 }
                 7 => {
                     // cfg_match!: every arm is reached
@@ -232,9 +242,20 @@ impl<'a, 'b> B<'a, 'b> {
                         }
                         3 => {
                             content.push_str(&format!("mod {name};\n"));
-                            self.label("ignore");
-                            let p = self.child_excluded(&d.clone(), &name, "");
-                            self.ignore.push(p);
+                            if self.c.flip() {
+                                self.label("ignore");
+                                let p = self.child_excluded(&d.clone(), &name, "");
+                                self.ignore.push(p);
+                            } else {
+                                // a directory pattern with a trailing slash: `name/mod.rs` below it
+                                self.label("ignore-directory");
+                                let id = self.fresh();
+                                let p = join(&join(&d, &name), "mod.rs");
+                                let body = self.unformatted_fn(id);
+                                let order = self.files.len();
+                                self.files.push(TreeFile { path: p, content: body, role: Role::Excluded, order, decl: "excluded".into() });
+                                self.ignore.push(format!("{}/", join(&d, &name)));
+                            }
                         }
                         4 => {
                             content.push_str(&format!("mod {name};\n"));
